@@ -264,8 +264,7 @@ def agg_fields(e):
     return dict(zip(e.extra['fields'], e.args))
 
 
-def r2(ctx):
-    R = 'R01.2'
+def r2(ctx, R='R01.2'):
     ctx.rule(R, 'record / update / apply / merge wiring')
     n = 0
     recs = record_ctor_bodies(ctx)
